@@ -493,6 +493,8 @@ def finish(prop, tier, seed, results, *, level="other", technique, bounds, assum
         "trusted_base": ["z3 5.1.0 (nlsat)", "cvc5 1.4.0 (cross-check of first query per configuration)", "vf/symc.py exact rational-function arithmetic", "CPython 3.12, numpy object-array dispatch"],
         "exhaustive": False,
     }
+    slow = sorted(((r.get("wall_s", 0), r.get("config")) for r in results if r.get("_kind") == "done"), key=lambda t: -t[0])[:3]
+    cov["slowest_jobs"] = [{"wall_s": w, "config": _jsonable(c)} for w, c in slow]
     if extra_coverage:
         cov.update(extra_coverage)
     ev = {
